@@ -20,10 +20,12 @@ PLAN = {"quick": {"shards": 16, "cases": 320, "timeout": 900}, "thorough": {"sha
 FLOORS = {
     "quick": {"distinct_nontrivial": 100, "graphs": 400, "edges_checked": 20000, "add_edge_helper.log": 20000,
               "edge_critical_path_sync_dependency": 200, "edge_critical_path_kernel_kernel_delay": 200,
-              "edge_critical_path_kernel_launch_delay": 300, "edge_critical_path_dependency": 500, "multi_thread_graphs": 50},
+              "edge_critical_path_kernel_launch_delay": 300, "edge_critical_path_dependency": 500, "multi_thread_graphs": 50,
+              "sync_event_inside_window_host_call_outside": 10},
     "thorough": {"distinct_nontrivial": 1500, "graphs": 6000, "edges_checked": 300000, "add_edge_helper.log": 300000,
                  "edge_critical_path_sync_dependency": 3000, "edge_critical_path_kernel_kernel_delay": 3000,
-                 "edge_critical_path_kernel_launch_delay": 4000, "edge_critical_path_dependency": 8000, "multi_thread_graphs": 800},
+                 "edge_critical_path_kernel_launch_delay": 4000, "edge_critical_path_dependency": 8000, "multi_thread_graphs": 800,
+                 "sync_event_inside_window_host_call_outside": 150},
 }
 SYNC_CALLS = {"cudaStreamSynchronize", "cudaDeviceSynchronize", "cudaEventSynchronize", "cudaEventQuery"}
 
@@ -186,6 +188,12 @@ def check_graph(A: cpdrv.Analysed, res: core.CaseResult, truth: Dict[str, Any]) 
                         f"of the kernel that waited for it: {desc} ({se.cat}/{se.name} stream {se.stream} -> {de.cat}/{de.name}; {why})")
         else:
             res.bad("edge-type", f"{tag}: unknown edge type {t}")
+    w0, w1 = A.win
+    for e in exp.clipped_host:
+        if e.cat == "cuda_sync":
+            H = byid.get(v.link.get(e.id, -1))
+            if H is not None and not (w0 <= H.ts <= w1):
+                res.counters["sync_event_inside_window_host_call_outside"] += 1
     res.counters["expected_host_chain_edges"] += len(exp.span_edges)
     res.counters["host_chain_edges_present"] += len(seen_chain)
     if len({e.tid for e in exp.analysed if e.stream == -1}) > 1:
